@@ -24,6 +24,7 @@ var c14ListA = ListSpec{ID: 1, Text: "! list A\n" +
 	"||example.org^\n" +
 	"||example.org/ads\n" +
 	"/ex[a-z]+le\\.net/\n" +
+	"/exa(?!b)ample\\.net/\n" + // parses, does not compile: marked invalid at first use
 	"/ad$domain=example.org\n" +
 	"@@||example.org^$generichide\n" +
 	"@@||example.org^$genericblock\n" +
@@ -39,6 +40,8 @@ var c14ListB = ListSpec{ID: 2, Text: "# list B\n" +
 	"0.0.0.0 example.org\n" +
 	":: example.org\n" +
 	"127.0.0.1 hosts.test alias.test\n" +
+	"0.0.0.0 dup.test dup.test\n" +
+	":: dup.test\n" +
 	"||blocked.test^$client=10.0.0.1\n" +
 	"||tagged.test^$ctag=pc\n" +
 	"||rw.test^$dnsrewrite=1.2.3.4\n" +
@@ -70,6 +73,7 @@ func C14Scenarios() []Scenario {
 	d5 := dnsQ("blocked.test", 1, "", "")
 	d6 := dnsQ("rw.test", 1, "", "")
 	d7 := dnsQ("hosts.test", 1, "", "")
+	d8 := dnsQ("dup.test", 1, "", "")
 	eng := Query{Kind: "engine", URL: "http://example.org/ads", Src: "http://example.org/", Type: rules.TypeScript}
 	eng2 := Query{Kind: "engine", URL: "http://ads.example.com/x", Src: "http://other.test/page", Type: rules.TypeImage}
 	cos := Query{Kind: "cosmetic", Host: "example.org", Option: rules.CosmeticOptionAll}
@@ -83,6 +87,7 @@ func C14Scenarios() []Scenario {
 		{Name: "S4-dns-pool-3t", Lists: both, Threads: [][]Query{{d2, d5}, {d3, d4}, {d6, d7}}, Warm: []Query{d1, d7}},
 		{Name: "S4-dns-pool-both-tagged-2t", Lists: both, Threads: [][]Query{{d3, d5}, {d3b, d3}}, Warm: []Query{d1}},
 		{Name: "S8-last-lines-of-two-files-2t", Lists: both, Threads: [][]Query{{q2}, {d4}}, Warm: []Query{q1}},
+		{Name: "S9-host-named-twice-2t", Lists: both, Threads: [][]Query{{d8}, {d8, d7}}, Warm: []Query{d1}},
 		{Name: "S5-engine-cosmetic-dns-3t", Lists: both, Threads: [][]Query{{eng}, {cos}, {d1}}, Warm: []Query{eng}},
 		{Name: "S7-engine-referrer-2t", Lists: both, Threads: [][]Query{{eng}, {eng2}}, Warm: []Query{eng}},
 		{Name: "S7-engine-same-referrer-2t", Lists: both, Threads: [][]Query{{eng}, {eng}}, Warm: []Query{eng}},
